@@ -319,6 +319,9 @@ def verify(spec: FuncSpec, cfg: dict, tier="quick", exclude=()) -> RunResult:
         except (RecursionError,) as u:
             res.undecided.append(f"recursion: {u}")
         except Exception as u:  # noqa: BLE001  checker crash, never a violation
+            import os
+            if os.environ.get("PYVC_DEBUG"):
+                traceback.print_exc()
             res.errors.append("".join(traceback.format_exception_only(type(u), u)).strip() + " @ " +
                               traceback.format_exc(limit=-6)[-1500:])
         finally:
